@@ -226,14 +226,24 @@ func xportCloseErr(err error) (code int, reason string, ok bool) {
 	return 0, "", false
 }
 
-func xportComp(mode string) *websocket.VerifCompression {
+// xportComp returns the negotiated parameters for a receiving endpoint under
+// test. Only the flag of the PEER's side governs how the endpoint must inflate,
+// so the endpoint's own flag is deliberately set to the opposite value: an
+// implementation that consults the wrong side's flag then fails to decode.
+func xportComp(mode string, client bool) *websocket.VerifCompression {
+	var peerNoTakeover bool
 	switch mode {
 	case "takeover":
-		return &websocket.VerifCompression{}
+		peerNoTakeover = false
 	case "no-takeover":
-		return &websocket.VerifCompression{ClientNoContextTakeover: true, ServerNoContextTakeover: true}
+		peerNoTakeover = true
+	default:
+		return nil
 	}
-	return nil
+	if client { // the peer is the server
+		return &websocket.VerifCompression{ServerNoContextTakeover: peerNoTakeover, ClientNoContextTakeover: !peerNoTakeover}
+	}
+	return &websocket.VerifCompression{ClientNoContextTakeover: peerNoTakeover, ServerNoContextTakeover: !peerNoTakeover}
 }
 
 func xportRole(client bool) string {
